@@ -11,6 +11,9 @@ Proof. vm_compute. reflexivity. Qed.
 Lemma l_handlers_ok : forallb handler_ok handlers = true.
 Proof. vm_compute. reflexivity. Qed.
 
+Lemma l_handlers_exact : handlers_eqb handlers expected_handlers = true.
+Proof. vm_compute. reflexivity. Qed.
+
 (* each document is composed from an EMPTY anchor table and node store: anchors of one document are not visible in the next *)
 Lemma l_document_starts_fresh f base e rest_ acc ex v tags :
   e_kind e = VDocStart ex v tags ->
